@@ -17,7 +17,7 @@
 #define S_MAXSZ 513
 enum { ROW_QSORT, ROW_BSEARCH };
 enum { IV_NONE, IV_BASE_NULL, IV_CMP_NULL, IV_KEY_NULL, IV_NMEMB_BIG, IV_SIZE_BIG };
-enum { KM_EXPLICIT, KM_COUNTS, KM_RANDOM, KM_HUGE };
+enum { KM_EXPLICIT, KM_COUNTS, KM_RANDOM, KM_HUGE, KM_VIRTUAL };
 #define S_L34 18454929L   /* Leonardo number L(34): above it the heap orders of the sort differ by more than 32 */
 #define S_HUGEMAX 26000000L
 
@@ -97,6 +97,17 @@ static int gen_c16(cs_t *cs, void *k, const runcfg_t *cfg) {
         c->cmpk = (int)cs_range(cs, 0, 2);
         c->kmode = KM_RANDOM;
         c->nkeys = 3;
+        c->cseed = (uint32_t)cs_noise(cs, 0, 0xffffff);
+        return 1;
+    }
+    if (c->row == ROW_BSEARCH && cs_range(cs, 0, 499) == 499) {
+        /* a sorted array of 4..14 GiB that is never touched: address space only, the comparator derives an element's key from its address */
+        static const long vs[4] = {512, 4096, 65536, 1000};
+        c->kmode = KM_VIRTUAL;
+        c->esize = (int)vs[cs_range(cs, 0, 3)];
+        c->nmemb = (int)(((4L << 30) + cs_range(cs, 1, 10) * (1L << 30)) / c->esize);
+        c->cmpk = 0;
+        c->bos = (int)cs_range(cs, 0, 1);
         c->cseed = (uint32_t)cs_noise(cs, 0, 0xffffff);
         return 1;
     }
@@ -612,11 +623,48 @@ static void exec_huge(const scase_t *c, res_t *r) {
     munmap(m, map + 2 * AR_PAGE);
 }
 
+/* ---- bsearch_s over a huge untouched array ---- */
+static unsigned char *vbase;
+static size_t vsize_el;
+static long vcmp_outside;
+static int cmp_virtual(const void *key, const void *elem, void *ctx) {
+    long want = *(const long *)key, idx;
+    (void)ctx;
+    if ((const unsigned char *)elem < vbase || ((size_t)((const unsigned char *)elem - vbase) % vsize_el) != 0) { vcmp_outside++; return 0; }
+    idx = (long)((size_t)((const unsigned char *)elem - vbase) / vsize_el);
+    return want < 2 * idx ? -1 : (want > 2 * idx ? 1 : 0);   /* element i holds key 2i */
+}
+static void exec_virtual(const scase_t *c, res_t *r) {
+    static unsigned char *region;
+    const size_t REGION = 15UL << 30;
+    size_t n = (size_t)c->nmemb, sz = (size_t)c->esize;
+    uint32_t s = c->cseed * 2654435761u + 3;
+    int q;
+    if (!region) { region = mmap(NULL, REGION, PROT_NONE, MAP_PRIVATE | MAP_ANONYMOUS | MAP_NORESERVE, -1, 0); if (region == MAP_FAILED) region = NULL; }
+    if (!region || n * sz > REGION || n < 2) { res_label(r, "skipped"); return; }
+    vbase = region; vsize_el = sz; vcmp_outside = 0;
+    r->nontrivial = 1;
+    res_label(r, "row:bsearch_s"); res_label(r, "array>4GiB(virtual)");
+    for (q = 0; q < 12; q++) {
+        long idx, key;
+        void *res = (void *)1;
+        s = s * 1664525u + 1013904223u;
+        idx = q == 0 ? 0 : q == 1 ? (long)n - 1 : q == 2 ? (long)(((4UL << 30) / sz) + 1) : (long)(((uint64_t)s * n) >> 32);
+        key = 2 * idx + (q & 1 && q > 2 ? 1 : 0);  /* odd keys are absent */
+        AR_GUARDED(res = _bsearch_s_chk(&key, vbase, n, sz, cmp_virtual, NULL, c->bos ? n * sz : BOS_UNKNOWN));
+        if (g_ar_fault.faulted) { r->fragile = 1; RES_VIOL(r, "C16:bsearch_s:fault:%s", "array>4GiB"); RES_DETAIL(r, "signal %d at %p: an element of the array was dereferenced or an address outside it computed (nmemb %zu, size %zu)", g_ar_fault.sig, (void *)g_ar_fault.addr, n, sz); return; }
+        if (vcmp_outside) { RES_VIOL(r, "C16:bsearch_s:comparator-got-non-element:%s", "array>4GiB"); RES_DETAIL(r, "the comparator was called with an address that is not an element of the array (nmemb %zu, size %zu)", n, sz); return; }
+        if (!(key & 1) && res != vbase + (size_t)idx * sz) { RES_VIOL(r, "C16:bsearch_s:present-key-not-found:ascending:%s", "array>4GiB"); RES_DETAIL(r, "key of element %ld (byte offset %zu) in an array of %zu x %zu bytes: returned %p, expected %p", idx, (size_t)idx * sz, n, sz, res, (void *)(vbase + (size_t)idx * sz)); return; }
+        if ((key & 1) && res != NULL) { RES_VIOL(r, "C16:bsearch_s:absent-key-found:ascending:%s", "array>4GiB"); RES_DETAIL(r, "a key between elements %ld and %ld was reported found at %p", idx, idx + 1, res); return; }
+    }
+}
+
 static void exec_c16(const void *k, res_t *r, const runcfg_t *cfg) {
     const scase_t *c = k;
     (void)cfg;
     r->hash = cs_hash_bytes(CS_HASH_INIT, c, sizeof *c);
     g_timeout = 0;
+    if (c->kmode == KM_VIRTUAL) { if (c->row != ROW_BSEARCH || c->esize < 1) { res_label(r, "skipped"); return; } exec_virtual(c, r); return; }
     if (c->kmode == KM_HUGE) {
         if (c->nmemb < 2 || c->nmemb > S_HUGEMAX || c->row != ROW_QSORT) { res_label(r, "skipped"); return; }
         res_label(r, "row:qsort_s");
